@@ -19,6 +19,11 @@ EXTENDS Naturals, Sequences, FiniteSets, TLC, Json
 CONSTANTS MaxLen, Names, Emit
 
 Roles == {"plain", "overload", "property", "setter", "deleter"}
+\* Every definition may carry one more, unrelated pass-through decorator, above or below the one that
+\* gives it its role.  handle_function / get_base_property / decorators_to_labels loop over ALL
+\* decorators (`overload |= ...`, `for decorator in decorators`), so no action below reads `deco`:
+\* the dimension exists so that the replay exercises those loops on the real code.
+Decos == {"none", "above", "below"}
 NoMember == [kind |-> "none", id |-> 0, overloads |-> <<>>, setter |-> 0, deleter |-> 0]
 
 VARIABLES prog,      \* the program: sequence of [name, role]
@@ -131,7 +136,7 @@ Visit ==
   /\ cursor' = cursor + 1
   /\ UNCHANGED <<prog, scope>>
 
-Defs == [name : Names, role : Roles]
+Defs == {d \in [name : Names, role : Roles, deco : Decos] : d.role = "plain" => d.deco # "below"}
 Progs == UNION {[1..n -> Defs] : n \in 1..MaxLen}
 
 Init ==
